@@ -816,7 +816,8 @@ where
 
                         // Join params with comma and space
                         let params_combined = if params_docs.is_empty() {
-                            allocator.nil()
+                            // `| |`: two adjacent bars would be read as the `||` operator
+                            allocator.space()
                         } else {
                             allocator.intersperse(params_docs.clone(), allocator.text(", "))
                         };
